@@ -84,6 +84,24 @@ def covariance_backward(S, spec, n1, n2, d, batch, same):
         Kg = dense(k(x1g, x2 if not same else x1g))
         (Kg * g).sum().backward()
         grad_gen = as_sym_arr(SH.get(raw.grad)).copy()
+        raw.grad = None
+        gx2 = gx2_ref = None
+        if not same:
+            # only the SECOND argument requires grad (e.g. the gradient of a prediction w.r.t. the test inputs): the gradient
+            # must be delivered, and equal the one obtained with the roles of the arguments exchanged (K(a, b) = K(b, a)^T)
+            x2g = x2.clone().requires_grad_(True)
+            Kh = dense(k(x1, x2g))
+            (Kh * g).sum().backward()
+            gx2 = x2g.grad
+            x2h = x2.clone().requires_grad_(True)
+            Kt = dense(k(x2h, x1))
+            (Kt * g.transpose(-1, -2)).sum().backward()
+            gx2_ref = as_sym_arr(SH.get(x2h.grad)).copy()
+            raw.grad = None
+    if not same:
+        S.check_concrete(gx2 is not None, "%s: a gradient w.r.t. the second argument (only x2 requires grad) is delivered" % spec)
+        if gx2 is not None:
+            S.prove_eq(gx2, gx2_ref, "%s: d sum(G*K(x1,x2)) / d x2 = d sum(G^T*K(x2,x1)) / d x2" % spec)
     S.check_concrete(any("_covariance.py:" in f for f in __import__("symten").FRAMES), "hand-written covariance Function was on the path")
     if spec.startswith("matern") and same:
         # off the distance guard (see above): coincident-point entries are compared by the C05/C06 checks, not here
